@@ -14,20 +14,41 @@ CO = "conch/ssh/connection.py"
 CMN = "conch/ssh/common.py"
 QC = "twisted.conch.ssh.channel.SSHChannel"
 QN = "twisted.conch.ssh.connection.SSHConnection"
-TECHNIQUE = "bounded exhaustive evaluation of the interpreted channel/connection source over operation histories"
+TECHNIQUE = ("structural: CFG dominance by normalised window inequalities (lincmp), coupled-update path rules (decrement exactly once per send), exact guard sets "
+             "and sibling agreement on the normalised view of SSHChannel / SSHConnection; second layer (bounded): the source interpreted over operation histories")
+RULE_KINDS = {
+    "s/": "structural",
+    "sender/": "bounded",
+    "receiver/": "bounded",
+}
 EXPLANATION = (
-    "The source of SSHChannel and SSHConnection is evaluated by a whitelisted interpreter (no twisted code is run) against a recording "
-    "transport. Sender: for remote windows / maximum packet sizes from 0/1 upwards, every history of up to three operations out of "
-    "{write, writeExtended (two types), addWindowBytes (1, 4, 100), loseConnection} plus a few hundred longer generated histories is "
-    "executed and then drained with ample window; after every step: each CHANNEL_DATA / EXTENDED_DATA carries at most remoteMaxPacket bytes "
-    "and the peer's channel id, the bytes sent never exceed the window granted so far, each stream sent is a prefix of the stream written "
-    "(complete after the drain), CHANNEL_CLOSE is sent at most once, only when everything written has been sent, only if requested, and "
-    "nothing follows it. Receiver: a simulated peer that respects the advertised window and maximum packet size (greedy, byte-wise and "
-    "alternating chunking; normal and extended data; local limits different from the remote ones; also while our own close is pending) must "
-    "never be answered with CLOSE, never stall, get its data delivered in order, and our window bookkeeping must equal what was advertised; "
-    "data of exactly window / max-packet size is accepted, one byte more is refused with CLOSE and not delivered; adjustWindow advertises "
-    "exactly what it adds locally and is silent after our CLOSE. Not decided: liveness for a local window of 1 (never replenished, a known "
-    "upstream limitation), interleaving of the two outgoing streams relative to each other."
+    "Two layers. Rules named s/... are STRUCTURAL (decided on the normalised code: private helpers inlined, tuple assignments split, named temporaries resolved "
+    "flow-sensitively; nothing evaluated) and give the for-all verdict; sender/... and receiver/... are BOUNDED (source interpreted on enumerated histories) and serve "
+    "as witnesses and as cover where a structural group abstains (written as a note 's/<group>: shape not recognised ...; clause left to ...'). Per clause: "
+    "[send only within the window] s/window/clamp: every path to a send passes the test `len <= remoteWindowLeft` (normalised linear inequality) or the "
+    "truncation that establishes it; s/split/at-window, s/split/complete: on the overflow edge the data is cut at the window, the rest (taken from the "
+    "untruncated data, same boundary) is buffered under its type; s/window/decrement-matches-sent, s/window/decrement-once: remoteWindowLeft is reduced on "
+    "every path after a send, exactly once, by exactly the amount handed to the connection, and on no path that sends nothing - structural. "
+    "[packet size] s/packet-size/piece-width: slice width / guard equals remoteMaxPacket (lin) - structural. "
+    "[order] s/order/send-only-if-buffer-empty (send sites dominated by the buffer-empty edge), s/order/append-at-tail-while-buffered, "
+    "s/order/merge-same-type-only, s/order/advance-by-sent - structural. "
+    "[re-write on WINDOW_ADJUST] s/window/credit, s/window/credit-before-rewrite (must-precede), s/flush/rewrites-buffer, s/flush/swap-before-rewrite, "
+    "s/flush/in-order - structural. "
+    "[flush before close] s/close/sent-from-loseConnection (who may send CLOSE), s/close/only-when-flushed (CLOSE dominated by both-buffers-empty edges), "
+    "s/close/recorded, s/close/recheck-after-drain (every draining function re-checks `closing` on every path to its exit), "
+    "s/close/waits-for-swapped-out-entries (entries held in a local during the re-write loop are invisible to loseConnection's guard: known finding F36a, also "
+    "witnessed by the bounded rule sender/close-after-flush) - structural. "
+    "[receiver] s/receive/window-boundary, s/receive/max-packet-boundary: delivery and window charge are guarded by exactly `length <= localWindowLeft` and "
+    "`length <= localMaxPacket` in normal form (boundary constant 0: equality accepted, one more refused); s/receive/overrun-closes, s/receive/window-decrement "
+    "(once, by the received length, before delivery), s/receive/replenish (amount localWindowSize - localWindowLeft by lin, after the charge, checked after every "
+    "message), s/receive/replenish-only-threshold-suppresses and s/adjust/only-closed-suppresses (exact guard sets), s/adjust/local-equals-advertised, "
+    "s/receive/header-format, s/receive/payload-offset - structural. "
+    "[addressing] s/send/remote-channel-id, s/send/message-type, s/send/whole-piece, s/send/nothing-after-close, s/writeSequence/through-write - structural. "
+    "Bounded evidence only: completeness of the stream after an arbitrary history (sender/stream-complete-in-order) and the receiver's liveness against a "
+    "window-respecting peer (receiver/respecting-peer-never-refused, receiver/window-replenished) are properties of histories; the structural rules decide "
+    "their per-step ingredients (split complete, append at tail, swap before re-write, exact boundaries, replenish amount) but the composition over histories "
+    "is shown only on the enumerated ones. Not decided: liveness for a local window of 1 (never replenished, a known upstream limitation), interleaving "
+    "of the two outgoing streams relative to each other."
 )
 ASSUMPTIONS = [
     "stopWriting/startWriting/closed and the channel's dataReceived/extReceived are opaque call-outs that do not write to the channel re-entrantly",
@@ -364,6 +385,8 @@ def check_receiver(ctx, m):
 
 
 def check(ctx):
+    from sa.props._lib_h_s36 import structural
+    structural(ctx)
     m = Model(ctx)
     with ctx.section("model/sender-histories"):
         check_sender(ctx, m)
@@ -402,6 +425,19 @@ MUTANTS = [
     Mutant("buffered-data-sent-ahead", CH, "        if self.buf:\n            self.buf += data\n            return\n        top = len(data)", "        top = len(data)", expect_rule="sender/stream-complete-in-order"),
     Mutant("ext-merge-into-first", CH, "            if self.extBuf[-1][0] == dataType:\n                self.extBuf[-1][1] += data", "            if self.extBuf[0][0] == dataType:\n                self.extBuf[0][1] += data",
            expect_rule="sender/stream-complete-in-order"),
+    # the same faults must be caught by the structural / finite-exhaustive layer alone
+    Mutant('s-adjust-suppressed-after-remote-close', CO, '        if channel.localClosed:\n            return  # we\'re already closed\n        packet = struct.pack(">2L", self.channelsToRemoteChannel[channel], bytesToAdd)',
+           '        if channel.localClosed or channel.remoteClosed:\n            return  # we\'re already closed\n        packet = struct.pack(">2L", self.channelsToRemoteChannel[channel], bytesToAdd)', expect_rule='s/adjust/only-closed-suppresses'),
+    Mutant('s-send-before-truncating', CH, '            top = self.remoteWindowLeft\n        rmp = self.remoteMaxPacket',
+           '        rmp = self.remoteMaxPacket', expect_rule='s/window/clamp'),
+    Mutant('s-close-with-nonempty-extbuf', CH, '        if not self.buf and not self.extBuf:\n            self.conn.sendClose(self)',
+           '        if not self.buf:\n            self.conn.sendClose(self)', expect_rule='s/close/only-when-flushed'),
+    Mutant('s-forget-decrement-last-piece', CH, '            self.conn.sendExtendedData(self, dataType, data)\n            self.remoteWindowLeft -= len(data)\n',
+           '            self.conn.sendExtendedData(self, dataType, data)\n', expect_rule='s/window/decrement-matches-sent'),
+    Mutant('s-rewrite-without-swap', CH, '            b = self.buf\n            self.buf = b""\n            self.write(b)\n',
+           '            b = self.buf\n            self.write(b)\n', expect_rule='s/flush/swap-before-rewrite'),
+    Mutant('s-receiver-refuses-exact-window', CO, '            dataLength > channel.localWindowLeft or dataLength > channel.localMaxPacket\n        ):  # more data than we want',
+           '            dataLength >= channel.localWindowLeft or dataLength > channel.localMaxPacket\n        ):  # more data than we want', expect_rule='s/receive/window-boundary'),
 ]
 SILENT = [
     Silent("close-guard-as-early-return", CH, "        self.closing = 1\n        if not self.buf and not self.extBuf:\n            self.conn.sendClose(self)\n", "        self.closing = 1\n        if self.buf or self.extBuf:\n            return\n        self.conn.sendClose(self)\n"),
